@@ -1,10 +1,17 @@
 package main
 
 // Family "num" (C07): the numeric tower.  A case is one pair of typed numbers
-// {a, b}; its events are (op a b) and (op b a), evaluated through EvalString
-// on the real interpreter, for the comparisons < <= > >= == !=, the arithmetic
-// operators + - * / and mod.  Validated by TLC against spec/NumTower.tla
-// (spec/NumTrace.tla).
+// {a, b}; its events are (op a b) and (op b a) on the real interpreter, for
+// the comparisons < <= > >= == !=, the arithmetic operators + - * / and mod.
+// Validated by TLC against spec/NumTower.tla (spec/NumTrace.tla).
+//
+// Every case has a route by which its 22 operations are reached: "text"
+// (EvalString of the program text), "apply" (Zlisp.Apply on the builtin
+// function object, as an embedding program calls a script function) or "go"
+// (the exported Go functions that do the work: NumericDo, IntegerDo,
+// CompareFunction).  The statement ("an error rather than a crash") holds for
+// the library, not only for what the script evaluator happens to recover, so
+// the expected result is the same on every route.
 //
 // 64-bit quantities travel as 4 little-endian 16-bit limbs (TLC integers are 32-bit);
 // a float64 is its IEEE bit pattern, a rune its sign-extended value.
@@ -214,6 +221,7 @@ func projNum(o outcome) any {
 // integers, qn[sw] naming its reading ("sq" signed, "uq" unsigned, "" none).
 type numCase struct {
 	ID   string   `json:"id"`
+	RT   string   `json:"rt"` // route: text | apply | go
 	A    any      `json:"a"`
 	B    any      `json:"b"`
 	TA   string   `json:"ta"`
@@ -232,8 +240,57 @@ var numOps = []string{"<", "<=", ">", ">=", "==", "!=", "+", "-", "*", "/", "mod
 
 func numEvText(op, l, r string) string { return "(" + op + " " + l + " " + r + ")\n" }
 
-func (d *numDriver) runCase(id string, a, b ntNum) numCase {
-	c := numCase{ID: id, A: a.tagged(), B: b.tagged(), TA: a.String(), TB: b.String(), SA: d.text(a), SB: d.text(b),
+var numRoutes = []string{"text", "apply", "go"}
+
+// goCall runs one call into the library from Go, recovering a panic that
+// escapes it (the crash the statement excludes).
+func numGoCall(f func() (zygo.Sexp, error)) (o outcome) {
+	defer func() {
+		if r := recover(); r != nil {
+			o = outcome{Kind: "panic", Err: fmt.Sprint(r)}
+		}
+	}()
+	v, err := f()
+	if err != nil {
+		return outcome{Kind: "err", Err: err.Error()}
+	}
+	if v == nil {
+		return outcome{Kind: "nilres"}
+	}
+	return outcome{Kind: "val", Val: v}
+}
+
+// evalRoute evaluates (op l r) by the given route.
+func (d *numDriver) evalRoute(route, op string, l, r ntNum) outcome {
+	switch route {
+	case "apply":
+		obj, ok := d.env.FindObject(op)
+		fn, isFn := obj.(*zygo.SexpFunction)
+		if !ok || !isFn {
+			fatal("num: no builtin function %q", op)
+		}
+		return numGoCall(func() (zygo.Sexp, error) { return d.env.Apply(fn, []zygo.Sexp{l.sexp(), r.sexp()}) })
+	case "go":
+		args := []zygo.Sexp{l.sexp(), r.sexp()}
+		switch op {
+		case "+":
+			return numGoCall(func() (zygo.Sexp, error) { return zygo.NumericDo(zygo.Add, args[0], args[1]) })
+		case "-":
+			return numGoCall(func() (zygo.Sexp, error) { return zygo.NumericDo(zygo.Sub, args[0], args[1]) })
+		case "*":
+			return numGoCall(func() (zygo.Sexp, error) { return zygo.NumericDo(zygo.Mult, args[0], args[1]) })
+		case "/":
+			return numGoCall(func() (zygo.Sexp, error) { return zygo.NumericDo(zygo.Div, args[0], args[1]) })
+		case "mod":
+			return numGoCall(func() (zygo.Sexp, error) { return zygo.IntegerDo(zygo.Modulo, args[0], args[1]) })
+		}
+		return numGoCall(func() (zygo.Sexp, error) { return zygo.CompareFunction(op)(d.env, op, args) })
+	}
+	return evalSafe(d.env, numEvText(op, d.text(l), d.text(r)))
+}
+
+func (d *numDriver) runCase(id, route string, a, b ntNum) numCase {
+	c := numCase{ID: id, RT: route, A: a.tagged(), B: b.tagged(), TA: a.String(), TB: b.String(), SA: d.text(a), SB: d.text(b),
 		FA: numFbits(numToFloat(a)), FB: numFbits(numToFloat(b))}
 	for sw := 0; sw < 2; sw++ {
 		l, r := a, b
@@ -242,7 +299,7 @@ func (d *numDriver) runCase(id string, a, b ntNum) numCase {
 		}
 		var res []any
 		for _, op := range numOps {
-			o := evalSafe(d.env, numEvText(op, d.text(l), d.text(r)))
+			o := d.evalRoute(route, op, l, r)
 			if o.Kind != "val" {
 				d.env.Clear()
 			}
@@ -381,8 +438,10 @@ func numFbits(f float64) []int { return numLimbs(math.Float64bits(f)) }
 
 // numPrimFor gives the graph points of the float primitive the specification
 // may need for l op r: the four float operations on the converted operands and,
-// for two integers, the correctly rounded exact quotient ("sq" for the signed,
-// "uq" for the unsigned reading of the words).
+// for two integers, the correctly rounded exact quotient of their VALUES, named
+// after the reading of the two words: "sq" signed/signed, "uq" unsigned/unsigned,
+// "suq" signed/unsigned, "usq" unsigned/signed (a uint64 is read as unsigned,
+// an int64 and a rune as signed).
 func numPrimFor(l, r ntNum) ([]any, string) {
 	x, y := numToFloat(l), numToFloat(r)
 	var out []any
@@ -397,18 +456,26 @@ func numPrimFor(l, r ntNum) ([]any, string) {
 	q := 0.0
 	if l.T != "flt" && r.T != "flt" && r.Bits != 0 {
 		var a, b big.Int
-		if l.T == "uint" && r.T == "uint" {
-			name = "uq"
-			a.SetUint64(l.Bits)
-			b.SetUint64(r.Bits)
-		} else if l.T != "uint" && r.T != "uint" {
+		name = "q"
+		for _, x := range []struct {
+			n ntNum
+			z *big.Int
+		}{{r, &b}, {l, &a}} {
+			if x.n.T == "uint" {
+				name = "u" + name
+				x.z.SetUint64(x.n.Bits)
+			} else {
+				name = "s" + name
+				x.z.SetInt64(int64(x.n.Bits))
+			}
+		}
+		switch name {
+		case "ssq":
 			name = "sq"
-			a.SetInt64(int64(l.Bits))
-			b.SetInt64(int64(r.Bits))
+		case "uuq":
+			name = "uq"
 		}
-		if name != "" {
-			q = numRatRound(new(big.Rat).SetFrac(&a, &b))
-		}
+		q = numRatRound(new(big.Rat).SetFrac(&a, &b))
 	}
 	return append(out, numFbits(q)), name
 }
@@ -443,6 +510,15 @@ func numGrid() []ntNum {
 	}
 	g = append(g, numFB(0xFFF8000000000000), numFB(0x7FF0000000000001)) // a negative quiet NaN, a signalling NaN pattern
 	return g
+}
+
+// numRouteGrid is the part of the boundary grid on which the routes other
+// than the program text are exercised exhaustively (every pair, both orders).
+func numRouteGrid() []ntNum {
+	return []ntNum{numI(numMinI), numI(numMinI + 1), numI(-numP53 - 1), numI(-2), numI(-1), numI(0), numI(1), numI(2), numI(6), numI(numP53 + 1), numI(numMaxI),
+		numU(0), numU(1), numU(2), numU(1<<53 + 1), numU(1 << 63), numU(math.MaxUint64),
+		numC(0), numC('a'), numC(0x10FFFF),
+		numF(math.Inf(-1)), numF(-1.5), numF(math.Copysign(0, -1)), numF(0), numF(1), numF(9007199254740992.0), numF(9223372036854775808.0), numF(math.Inf(1)), numF(math.NaN())}
 }
 
 var numTypes = []string{"int", "uint", "chr", "flt"}
@@ -567,12 +643,24 @@ func init() {
 		for i := range g {
 			for j := i; j < len(g); j++ {
 				if c.mine(idx) {
-					w.write(d.runCase(fmt.Sprintf("g%d-%d", i, j), g[i], g[j]))
+					w.write(d.runCase(fmt.Sprintf("g%d-%d", i, j), "text", g[i], g[j]))
 				}
 				idx++
 			}
 		}
-		// (b) seeded random 64-bit patterns, every combination of types
+		// (a') the other routes into the library on the route grid: every unordered pair
+		rg := numRouteGrid()
+		for _, route := range numRoutes[1:] {
+			for i := range rg {
+				for j := i; j < len(rg); j++ {
+					if c.mine(idx) {
+						w.write(d.runCase(fmt.Sprintf("%c%d-%d", route[0]-32, i, j), route, rg[i], rg[j]))
+					}
+					idx++
+				}
+			}
+		}
+		// (b) seeded random 64-bit patterns, every combination of types, every route
 		n := c.n
 		if n == 0 {
 			n = 1500
@@ -590,7 +678,8 @@ func init() {
 			ta, tb := numTypes[k%4], numTypes[(k/4)%4]
 			a := randNum(r, ta, nil)
 			b := randNum(r, tb, &a)
-			w.write(d.runCase(fmt.Sprintf("r%d-%d", c.seed, k), a, b))
+			route := numRoutes[(k/16)%len(numRoutes)]
+			w.write(d.runCase(fmt.Sprintf("r%d-%d%c", c.seed, k, route[0]), route, a, b))
 		}
 		return 0
 	})
@@ -602,6 +691,7 @@ func numReplay(d *numDriver, c *common, w *ndWriter) int {
 	readLines(c.replay, func(line []byte) {
 		var in struct {
 			ID string `json:"id"`
+			RT string `json:"rt"`
 			A  []any  `json:"a"`
 			B  []any  `json:"b"`
 		}
@@ -621,7 +711,10 @@ func numReplay(d *numDriver, c *common, w *ndWriter) int {
 			}
 			return ntNum{t, numUnlimbs(xs)}
 		}
-		w.write(d.runCase(in.ID, dec(in.A), dec(in.B)))
+		if in.RT == "" {
+			in.RT = "text"
+		}
+		w.write(d.runCase(in.ID, in.RT, dec(in.A), dec(in.B)))
 	})
 	return 0
 }
